@@ -143,6 +143,22 @@ _add("C05",
      replace_note=[("7 fixed + 24 quick / 120 thorough combinations", "11 fixed (incl. wide tiles whose last column is as wide as a tile is tall, uncompressed tiles) + 24 quick / 120 thorough combinations")],
      note="uncompressed tile bytes of both compressors by a BOUNDED native check (4 tile shapes x 3 layouts x 7 block sizes x 2 fill values)")
 
+_add("C05",
+     text="_extract_tile_info is PROVED for a tile stream of any length over 1-3 pyramid levels with any tile counts (loop invariant over the running byte position: every non-empty tile's entry = start + total size of the tiles before it, byte count = its size; the level's slot map is an uninterpreted injective function, flat_tile_idx's own contract and lemma). _patch_hdr data-flow lemma over a stand-in TIFF editor whose buffer grows by a symbolic amount when the statistics text does not fit in place: tile offsets use the header size measured AFTER that.",
+     replace_note=[("_extract_tile_info (offset table = prefix sums, no gaps/overlaps) and _make_empty_cog", "_make_empty_cog")],
+     note="the dask round trip now also covers uncompressed tiles, pyramids with a level that is exactly one tile, images whose padding adds whole tile rows / columns and full-range / 1e300-sized pixel values (three genuine defects found there and repaired: see known_findings.json)")
+_add("C16",
+     replace_note=[("GeoBox.enclosing over a ghost pixel-plane image of the region (the projection itself assumed)", "GeoBox.enclosing over a ghost pixel-plane image of the region, given as a geometry or as a BoundingBox whose polygon -- not its corners -- must be projected (the projection itself assumed)")])
+_add("C19",
+     note="the catalogue also holds CRS objects built from other spellings AFTER their EPSG code / units were looked up (clone has the same string form, hash and token)")
+_add("C11",
+     replace_note=[("BOUNDED native end-to-end check (9 source grids", "BOUNDED native end-to-end check (10 source grids incl. a 3200 x 3200 km LAEA raster checked on a 161 x 161 lattice; 9 other source grids")],
+     note="the stand-in footprint of the dispatch lemma resolves omitted arguments from the REAL signature's defaults")
+_add("C12",
+     note="grid_intersect samples include destinations overhanging the source by whole tiles on the left / top")
+_add("C09",
+     note="data_resolution_and_offset (label arithmetic, incl. the fallback resolution used only for single-element axes) is verified as a root of this property too")
+
 NA = {}
 ALL = [f"C{i:02d}" for i in range(1, 21)]
 
